@@ -9,11 +9,11 @@ items, a child abandoned, a consumer cancelled at its c-th suspension, EINTR-lik
 import traceback
 
 from ..actors import World, make_async_source
-from ..loop import Cancel, PAUSE, LOCKWAIT, make_lock_type
+from ..loop import CANCEL, PAUSE, LOCKWAIT, make_lock_type
 from ..runner import Outcome
 from ..tools import draw_cfg, Gen, lib
 from ..actors import ASYNC_FLAVOURS, SYNC_FLAVOURS
-from .common import set_interrupts, COMPONENTS_BASE, run_sim, new_sim, finish_outcome
+from .common import set_interrupts, COMPONENTS_BASE, COMPONENTS_AIO, run_sim, new_sim, finish_outcome, pick_backend, make_lock
 
 PID = "C09"
 LEVEL = "exploration"
@@ -30,9 +30,9 @@ RULE = (
     "is live. Non-trivial: >=2 items delivered and >=2 consumers made progress; distinct = distinct "
     "(scenario, interleaving) by 64-bit hash; schedule_digests_distinct counts distinct (task, token kind) traces."
 )
-COMPONENTS = COMPONENTS_BASE
+COMPONENTS = COMPONENTS_AIO
 ASSUMPTIONS = [
-    "the lock is the SimLock stub (plain mutex protocol __aenter__/__aexit__), not a real event loop's lock",
+    "the lock is the SimLock stub on the token loop and the real asyncio.Lock on backend B (a quarter of the runs)",
     "a cancelled consumer closes its own child (owner cleans up); an abandoned child stays live and is a lagging child",
     "the delivery log of the instrumented source is the ground truth for 'the source's items'",
 ]
@@ -83,6 +83,8 @@ def gen(ch):
     sc.cancel = None
     if ch.chance(1, 3):
         sc.cancel = ch.draw(sc.n)
+    # backend B: the real asyncio.Lock and Task.cancel() (only meaningful with a lock)
+    sc.backend = pick_backend(ch, 1, 4)
     return sc
 
 
@@ -132,7 +134,7 @@ async def consumer(ci, child, prog, st, sim):
                 check_retention(st)
             else:
                 st.finished[ci] = "abandoned"
-    except Cancel as cancel:
+    except CANCEL as cancel:
         st.finished[ci] = "cancelled"
         try:
             await child.aclose()
@@ -161,13 +163,13 @@ def execute(st_, ctx):
     out = Outcome()
     ch = st_.scenario
     sc = gen(ch)
-    sim = new_sim(st_, interrupts=False)
+    sim = new_sim(st_, interrupts=False, backend=sc.backend)
     set_interrupts(sim, (0, 0, 5, 2)[sc.interrupt])
     world = World(sim)
     src = make_async_source(world, sc.src)
     lock = None
     if sc.lock:
-        lock = make_lock_type(sim, sc.lock_policy, sc.lock_acq_susp, sc.lock_rel_susp)()
+        lock = make_lock(sim, sc.lock_policy, sc.lock_acq_susp, sc.lock_rel_susp)()
     handle = lib().tee(src.obj, sc.n, lock=lock) if lock is not None else lib().tee(src.obj, sc.n)
     st = State()
     st.n = sc.n
@@ -199,7 +201,7 @@ def execute(st_, ctx):
     desc = None
 
     def describe():
-        return {"children": sc.n, "lock": bool(sc.lock),
+        return {"backend": sc.backend, "children": sc.n, "lock": bool(sc.lock),
                 "lock_policy": [sc.lock_policy, sc.lock_acq_susp, sc.lock_rel_susp],
                 "source": sc.src.describe(),
                 "programs": [{"take": p.take, "then": p.then, "pauses": p.pauses} for p in sc.progs],
@@ -287,7 +289,7 @@ def execute(st_, ctx):
     if all(f == "stop" for f in st.finished):
         out.probes["all_children_exhausted"] = 1
     out.nontrivial = src.delivered >= 2 and sum(1 for y in st.yields if y) >= 2
-    out.shape = (sc.n, bool(sc.lock), sc.src.flavour, len(sc.src.items), sc.src.suspend,
+    out.shape = (sc.backend, sc.n, bool(sc.lock), sc.src.flavour, len(sc.src.items), sc.src.suspend,
                  tuple((p.take, p.then, tuple(p.pauses)) for p in sc.progs), sc.cancel,
                  hash(tuple(sim.trace)))
     if ctx.want_sample:
